@@ -22,8 +22,16 @@ PROP_BITS = (1, 2, 3, 4, 5)
 CORPUS = os.path.join(env.VERIF, "corpus", "cache")
 
 
-def inproc(family, faults, rmdir=False):
-    return {"kind": "inproc", "family": family, "rounds": [{"faults": dict(faults), "rmdir": rmdir, "starts": 2}]}
+def inproc(family, faults, rmdir=False, starts=2):
+    return {"kind": "inproc", "family": family, "rounds": [{"faults": dict(faults), "rmdir": rmdir, "starts": starts}]}
+
+
+def ops(*calls):
+    return {"ops": [list(c) for c in calls]}
+
+
+def entry_file(call):
+    return (("dvt_el" if call[1] in ("el", "evolaemp") else "dvt") if call[0] == "dvt" else call[1] + ".converter") + ".pkl"
 
 
 def cut_offsets(size, n, rng):
@@ -57,20 +65,22 @@ def build_streams(lab, tier, seed, consulted):
     rng = random.Random(seed)
     files = sorted(lab.ref_bytes)
     sizes = {f: len(b) for f, b in lab.ref_bytes.items()}
-    unconsulted = [f for f in files if f not in consulted]
+    pool_entries = {entry_file(c) for c in lab.pool}
     quick = tier == "quick"
     # 1. every file x {deleted, emptied, truncated}
-    single = [inproc("intact", {})]
+    every = ops(*lab.pool)                                      # every modelled call, twice: the 2nd is quiet
+    single = [inproc("intact", {}), inproc("intact", {}, starts=[every, every, "import"])]
     for f in files:
-        single.append(inproc("deleted", {f: ("del",)}))
-        single.append(inproc("emptied", {f: ("cut", 0)}))
+        st = 2 if f in lab.import_files else [every, every]
+        single.append(inproc("deleted", {f: ("del",)}, starts=st))
+        single.append(inproc("emptied", {f: ("cut", 0)}, starts=st))
         if quick:
             pts = cut_offsets(sizes[f], 16, rng)
-        elif f in consulted:
+        elif f in consulted or f in pool_entries:
             pts = list(range(1, sizes[f]))                     # every byte offset
         else:
-            pts = cut_offsets(sizes[f], 400, rng)              # dense sample of the never-read entries
-        single += [inproc("truncated", {f: ("cut", k)}) for k in pts]
+            pts = cut_offsets(sizes[f], 250, rng)              # dense sample of the never-read entries
+        single += [inproc("truncated", {f: ("cut", k)}, starts=st) for k in pts]
     # 2. all subsets of the consulted files x {deleted, emptied}; thorough: all 3^n mixed states
     subsets = []
     cons = sorted(consulted)
@@ -95,7 +105,34 @@ def build_streams(lab, tier, seed, consulted):
         fl = random_faults(rng, files, sizes)
         if rng.random() < 0.15:
             fl["notes.txt" if rng.random() < 0.5 else "old.converter.pkl"] = ("add", rng.randrange(0, 5))
-        rand.append(inproc("random", fl, rmdir=False))
+        st = 2
+        if rng.random() < 0.5:          # calls outside the import sequence first, then restarts
+            st = [ops(*[rng.choice(lab.pool) for _ in range(rng.randrange(1, 7))]), "import", "import"]
+        rand.append(inproc("random", fl, rmdir=False, starts=st))
+    # 3b. call histories: load_dvt with every accepted spelling of its path / the *_el models on a damaged
+    #     entry, then a restart whose inventories and models are compared with the reference, then another
+    hist = []
+    aliases = [c for c in lab.pool if c[0] == "dvt"]
+    models = [c for c in lab.pool if c[0] == "model"]
+    for a in aliases:
+        f = entry_file(a)
+        for dmg in [{}, {f: ("del",)}, {f: ("cut", 0)}, {f: ("cut", 1)}, {f: ("cut", sizes[f] - 1)},
+                    {f: ("cut", rng.randrange(1, sizes[f]))}, {"dvt.pkl": ("del",), "dvt_el.pkl": ("del",)},
+                    {"dvt.pkl": ("cut", 0), "dvt_el.pkl": ("cut", rng.randrange(1, sizes["dvt_el.pkl"]))}]:
+            hist.append(inproc("alias-history", dmg, starts=[ops(a), "import", "import"]))
+            hist.append(inproc("alias-history", dmg, starts=[ops(a), ops(*aliases), "import"]))
+        hist.append(inproc("alias-history", {}, rmdir=True, starts=[ops(a), "import", "import"]))
+    el = [c for c in lab.pool if c == ("dvt", "el") or c[1].endswith("_el")]
+    for _ in range(40 if quick else 1500):
+        fl = random_faults(rng, files, sizes)
+        k = rng.random()
+        calls = el if k < 0.3 else [rng.choice(lab.pool) for _ in range(rng.randrange(1, 6))]
+        again = [rng.choice(lab.pool) for _ in range(rng.randrange(1, 4))]
+        hist.append(inproc("call-history", fl, rmdir=(rng.random() < 0.05),
+                           starts=[ops(*calls), "import", ops(*again), "import"]))
+    for m in models:
+        f = entry_file(m)
+        hist.append(inproc("model-call", {f: ("cut", rng.randrange(0, sizes[f]))}, starts=[ops(m), ops(m), "import"]))
     # 4. real interpreters: random multi-file states and restart sequences
     subs = []
     for i in range(30 if quick else 500):
@@ -104,6 +141,9 @@ def build_streams(lab, tier, seed, consulted):
         for j in range(nr):
             c = rng.random()
             rd = {"faults": random_faults(rng, files, sizes), "rmdir": False, "starts": 1 if rng.random() < 0.7 else 2}
+            if rng.random() < 0.35:      # calls after the import in the same interpreter, then a restart
+                rd["starts"] = [ops(*[rng.choice(aliases if rng.random() < 0.7 else lab.pool)
+                                      for _ in range(rng.randrange(1, 4))]), "import"]
             if c < 0.08:
                 rd["rmdir"] = rng.choice([True, "parent"])
             rounds.append(rd)
@@ -115,6 +155,7 @@ def build_streams(lab, tier, seed, consulted):
             rounds[0]["rmdir"] = False
         subs.append(case)
     return [("cache_single_file", single), ("cache_subsets", subsets), ("cache_random", rand),
+            ("cache_call_histories", hist),
             ("cache_interpreter_restarts", subs)]
 
 
@@ -178,13 +219,13 @@ def setup_lab(run, tag=""):
                            "settings.py instantiates Model(%r) whose directory has a scorer tree but no matrix; "
                            "compile_model would write into the package data" % st["arg"]}, no_input=True)
             return None, None
-    lab = comp.Lab(env.SRC, info["steps"], tag)
+    lab = comp.Lab(env.SRC, info["steps"], tag, dirs=info["dirs"])
     try:
         lab.boot()
     except BaseException as e:      # noqa: `import lingpy` itself failed on an absent cache directory
         if isinstance(e, (KeyboardInterrupt, SystemExit)):
             raise
-        run.violation({"kind": "the start on an absent cache directory failed (first `import lingpy`, "
+        run.violation({"kind": "the start on an absent cache directory raised, or built objects that differ from what the data files say (first `import lingpy`, "
                                "XDG_CACHE_HOME pointing at an empty directory)",
                        "case": {"kind": "sub", "rounds": [{"faults": {}, "rmdir": True, "starts": 1}]},
                        "error": "%s: %s" % (type(e).__name__, e), "traceback": traceback.format_exc()[-2500:]},
@@ -246,9 +287,12 @@ def main(tier, seed):
                 if wait_subs:
                     wait_subs(cancel=True)
                 shutil.rmtree(d, ignore_errors=True)
-            unconsulted = sorted(f for f in lab.ref_bytes if f not in consulted)
+            pool_entries = {entry_file(c) for c in lab.pool}
+            unconsulted = sorted(f for f in lab.ref_bytes if f not in consulted and f not in pool_entries)
             c = run.coverage
             c["consulted_entries"] = sorted(consulted)
+            c["entries_consulted_by_calls_outside_the_import_sequence"] = sorted(pool_entries - consulted)
+            c["modelled_calls"] = [list(x) for x in lab.pool]
             c["unconsulted_entries_written_but_never_read"] = unconsulted
             c["reference_file_sizes"] = {f: len(b) for f, b in lab.ref_bytes.items()}
             c["interpreter_level"] = counts
@@ -260,13 +304,17 @@ def main(tier, seed):
                       no_input=True)
     c = run.coverage
     c["rule"] = (
-        "a case = the reference cache (13 files written by a start on an absent cache) + damage + 2 starts. "
+        "a case = the reference cache (the files written by a start on an absent cache plus those written by the "
+        "calls outside the import sequence: load_dvt('' / 'el' / 'evolaemp'), Model(d) for every well-formed data "
+        "directory) + damage + a history of starts (`import lingpy`) and such calls, every object handed out being "
+        "compared over all keys with what the data files say (read without lingpy code, NFC). "
         "Streams: every file x {deleted, emptied, truncated at %s}; %s of the consulted files; seeded random "
-        "multi-file states incl. foreign files and a removed directory; %d real interpreters (`import lingpy`, "
+        "multi-file states incl. foreign files and a removed directory; call histories (each path alias of load_dvt "
+        "on a damaged entry, then restarts; the *_el family; random calls between restarts); %d real interpreters (`import lingpy`, "
         "XDG_CACHE_HOME redirected) over random multi-file states and restart sequences. "
         "Non-trivial = at least one start had to rebuild an entry (a cache.dump happened); distinct by the damage."
         % ("16 offsets incl. 1 and size-1" if tier == "quick" else
-           "every byte offset (consulted files) / 400 offsets (never-read scorer files)",
+           "every byte offset (consulted files) / 250 offsets (never-read scorer files)",
            "all subsets deleted, 40% sample of the subsets emptied," if tier == "quick" else "all 3^8 mixed {intact, deleted, emptied} states",
            30 if tier == "quick" else 500))
     c["exhaustive"] = False
@@ -278,6 +326,8 @@ def main(tier, seed):
         "proved is the fallback logic (try load / on any failure compile and load again) for every cache state",
         "translator harness/translate/settings_models.py (fail-closed ast): settings.py -> import sequence, "
         "data/models -> files present; any other import-time cache consumer in the package makes it raise",
+        "reference objects: harness/comp/cache.py source_objects reads data/models/*/{converter,matrix,diacritics,"
+        "vowels,tones} itself (utf-8-sig, NFC) - a second, independent reading of the file formats",
         "correspondence check: harness/comp/cache.py wraps cache.load/dump, compile_model/compile_dvt, Model.__init__, "
         "load_dvt from outside and re-executes lingpy/settings.py; event trace, values, and files afterwards are "
         "compared with Runtime/Cache.import_run inside Coq (vm_compute)",
